@@ -382,6 +382,7 @@ class RetryExecutor(CanCustomizeBind, Executor):
                     if not job.delegate_future:
                         self._log.debug("Successful cancel - no delegate: %s", job)
                         self._jobs.pop(idx)
+                        metrics.RETRY_QUEUE.labels(executor=self._name).dec()
                         return True
 
                     found_job = job
